@@ -163,3 +163,7 @@ Fixpoint trailing_pad_only (sig : list enc) : bool :=
   | [] => true
   | e :: sig' => if is_pad e then forallb is_pad sig' else trailing_pad_only sig'
   end.
+
+(* block sizes are written as unsigned numbers in a mapfile *)
+Definition params_nonneg (ps : list sparam) : bool :=
+  forallb (fun p => match p with PStr (SBlock bs) _ _ _ _ | PStr (SPascal bs) _ _ _ _ => 0 <=? bs | _ => true end) ps.
